@@ -1,5 +1,7 @@
 package gen
 
+import "strconv"
+
 // Ctx generates the C19 programs: long context sessions mixing valid and NaN-producing argument
 // classes, Err() at random points, and panics that are not ErrNaN.
 func Ctx(g *G, nprog, steps int) []Program {
@@ -51,11 +53,37 @@ func Ctx(g *G, nprog, steps int) []Program {
 				g.Emit(M{"op": "Ctx.NewInt", "c": "c0", "z": z, "i": g.PickS("0", "-"+g.Digits(30), g.Digits(50))})
 			case k < 93:
 				g.Emit(M{"op": "Ctx.NewRat", "c": "c0", "z": z, "num": g.PickS("0", "1", "-22", g.Digits(20)), "den": g.PickS("1", "3", "7", "8", g.Digits(10))})
-			case k < 94:
-				g.Emit(M{"op": "Ctx.NewDec", "c": "c0", "z": z})
 			case k < 96:
+				switch g.R.Intn(5) {
+				case 0:
+					g.Emit(M{"op": "Ctx.NewDec", "c": "c0", "z": z})
+				case 1:
+					g.Emit(M{"op": "Ctx.NewFloat64", "c": "c0", "z": z, "bits": strconv.FormatUint(g.f64bits(), 10)})
+				case 2:
+					s := M{"op": "Ctx.NewFloat", "c": "c0", "z": z}
+					g.bigFloatArgs(s, g.Pick(1, 24, 53, 64, 100, 1+g.R.Intn(200)))
+					g.Emit(s)
+				case 3:
+					lit := g.randLiteral(0)
+					if g.R.Intn(4) == 0 {
+						lit = g.mutate(lit)
+					}
+					if isPlainASCII(lit) {
+						g.Emit(M{"op": "Ctx.NewString", "c": "c0", "z": z, "s": lit})
+					}
+				default:
+					base := g.Pick(0, 0, 10, 2, 8, 16)
+					lit := g.randLiteral(base)
+					if g.R.Intn(4) == 0 {
+						lit = g.mutate(lit)
+					}
+					if isPlainASCII(lit) {
+						g.Emit(M{"op": "Ctx.ParseDecimal", "c": "c0", "z": z, "s": lit, "base": base})
+					}
+				}
+			case k < 97:
 				g.Emit(M{"op": "Ctx.AddNilY", "c": "c0", "z": z, "x": x})
-			case k < 98:
+			case k < 99:
 				g.Emit(M{"op": "SetPrec", "z": z, "p": g.Pick(0, 2, 60)}) // receivers whose own precision differs from the context's
 			default:
 				g.Emit(M{"op": "SetMode", "z": z, "m": g.Mode()})
